@@ -19,14 +19,15 @@ RULE = ("grid world in {LineWorld, GridWorld, DiscreteWorld incl. zero-extent ax
         "or ndarray table of the world's dimensionality; every value encodes (component serial, x, y, z); non-trivial = "
         "non-cubic world with >=2 populated axes, >=2 live components of different source kinds at once and >=1 removal "
         "followed by a full read-back; distinct = (shape, sequence of (op, source kind, live count))"
-        "; also: generator objects reused across components (table edited in place / rebound, constant changed), re-adding a live name, sequence-valued constants, a ConstantGenerator subclass, tables mixing text and numbers; rare switch for known finding F12")
+        "; also: generator objects reused across components (table edited in place / rebound, constant changed), re-adding a live name, sequence-valued constants, a ConstantGenerator subclass, tables mixing text and numbers, a second discrete world in the same process using the same component names; rare switch for known finding F12")
 COMPONENTS = {"real": ["ECAgent.Environments.DiscreteWorld.add_cell_component / remove_cell_component / cells / get_cell",
                        "ConstantGenerator", "LookupGenerator", "LineWorld / GridWorld constructors", "pandas.DataFrame"],
               "stub": ["callable generators and source buffers are harness-built"]}
 PROBES = ["src_callable", "src_list", "src_ndarray_int", "src_ndarray_float", "src_const", "src_lookup_list",
           "src_lookup_nd", "alias_after_ndarray", "alias_after_list", "zero_extent_below_populated", "readd_removed_name",
           "remove_unknown_rejected", "lookup_1d", "lookup_2d", "lookup_3d", "get_cell_compared", "generator_object_reused", "readd_live_name_overwrites", "src_lookup_reuse",
-          "src_lookup_rebind", "src_const_reuse", "src_const_tuple", "src_const_subclass", "lookup_mixed_text_and_numbers"]
+          "src_lookup_rebind", "src_const_reuse", "src_const_tuple", "src_const_subclass", "lookup_mixed_text_and_numbers",
+          "second_world_same_names", "second_world_removed_a_name_live_here", "second_world_rejects_a_name_live_here"]
 TECHNIQUE = "deterministic simulation: seeded add/remove histories of cell components with injected rejected removals and caller-side buffer mutation vs a per-cell reference table"
 LEVEL_TEXT = ("Seeded search over grid shapes, source kinds and add/remove histories; after every operation the column set, the "
               "position column and every cell of every live component must equal the reference (so no add / remove disturbs "
@@ -77,6 +78,12 @@ def generate(rng, tier):
             ops.append({"op": "overwrite", "name": rng.choice(names)})
         else:
             ops.append({"op": "readback"})
+    if rng.random() < 0.3:
+        # a second discrete world lives in the same process and uses the same component names: nothing done to one world
+        # may show in the other
+        for _ in range(rng.randint(1, 6)):
+            ops.insert(rng.randint(0, len(ops)), {"op": "other", "what": rng.choice(["add", "add", "remove", "remove", "remove_unknown"]),
+                                                  "name": rng.choice(names), "own_model": rng.random() < 0.5})
     return {"world": world, "ops": ops}
 
 
@@ -115,7 +122,26 @@ def execute(sc, ctx):
     populated = sum(1 for e in (W, H, D) if e > 1)
     noncubic = len({e for e in (W, H, D) if e > 0}) > 1
 
+    other = {"env": None, "live": {}}
+
+    def other_world(own_model):
+        if other["env"] is None:
+            from ECAgent.Environments import GridWorld
+            other["env"] = GridWorld(Model(seed=5) if own_model else m, 2, 2)
+            ctx.probe("second_world_same_names")
+        return other["env"]
+
+    def check_other(where):
+        e2 = other["env"]
+        if e2 is None:
+            return
+        ctx.check(sorted(map(str, e2.cells.columns)) == sorted(["pos"] + list(other["live"])), "other-world-columns",
+                  f"{where}: the second world has columns {list(e2.cells.columns)}, expected pos + {list(other['live'])}")
+        for name, v in other["live"].items():
+            ctx.check(list(e2.cells[name]) == [v] * 4, "other-world-values", f"{where}: {name}")
+
     def check_all(where):
+        check_other(where)
         cols = list(env.cells.columns)
         ctx.check(sorted(map(str, cols)) == sorted(["pos"] + list(live)), "columns",
                   f"{where}: columns {cols} expected (in any order) {['pos'] + list(live)}")
@@ -267,6 +293,23 @@ def execute(sc, ctx):
             ctx.fault("reject.cell_unknown")
             ctx.probe("remove_unknown_rejected")
             ctx.expect_raises("remove-unknown", ComponentNotFoundError, env.remove_cell_component, op["name"])
+        elif kind == "other":
+            e2 = other_world(op.get("own_model"))
+            name = op["name"]
+            if op["what"] == "add":
+                serial += 1
+                ctx.expect_ok("other-add", e2.add_cell_component, name, ConstantGenerator(-serial))
+                other["live"][name] = -serial
+            elif name in other["live"] and op["what"] == "remove":
+                ctx.expect_ok("other-remove", e2.remove_cell_component, name)
+                del other["live"][name]
+                if name in live:
+                    ctx.probe("second_world_removed_a_name_live_here")
+            elif name not in other["live"]:
+                ctx.fault("reject.cell_unknown")
+                if name in live:
+                    ctx.probe("second_world_rejects_a_name_live_here")
+                ctx.expect_raises("other-remove-unknown", ComponentNotFoundError, e2.remove_cell_component, name)
         elif kind == "overwrite":
             rec = live.get(op["name"])
             if rec is None or rec["buf"] is None:
